@@ -131,7 +131,9 @@ def strat_free(tier):
     z = st.one_of(st.sampled_from([0.0, 1.0, -1.0, 10.0, 250.0]), U.nice_float(-500, 500).map(lambda v: round(v, 3)))
     return st.fixed_dictionaries({
         'shape': st.one_of(st.tuples(ax, ax).map(list), ax.map(lambda k: [k, k])),
-        'wvl': st.sampled_from([0.5, 0.6328, 1.55, 10.6]), 'dx': st.sampled_from([0.01, 0.05, 0.2, 1.0]),
+        # spacings from a millimetre down to well below half a wavelength (dx < 0.0005*wvl: every plane-wave component is evanescent
+        # in the exact theory, but the library's paraxial kernel is a pure phase at every frequency)
+        'wvl': st.sampled_from([0.5, 0.6328, 1.55, 10.6]), 'dx': st.sampled_from([0.01, 0.05, 0.2, 1.0, 2e-4, 1e-3]),
         'z1': z, 'z2': z, 'Q': st.sampled_from([1, 1, 2]), 'via': st.sampled_from(['function', 'tf', 'wavefront']),
         'kind': U.field_kinds, 'prec': st.sampled_from([64, 64, 64, 32]), 'layout': U.layouts, 'seed': U.seeds,
         'scalar_type': st.sampled_from(['float', 'float', 'np.float64', '0d-array'])})
@@ -141,6 +143,10 @@ def check_free(case, ctx):
     """angular-spectrum propagation: |H|=1, identity at z=0, P(-z)P(z)=id, P(z2)P(z1)=P(z1+z2), energy conserved."""
     from prysm import propagation as P
     shape, wvl, dx, z1, z2, Q, via, prec = (case[k] for k in ('shape', 'wvl', 'dx', 'z1', 'z2', 'Q', 'via', 'prec'))
+    if dx < 0.01:
+        # keep the kernel's largest phase (pi wvl z / (2 dx)^2) in the range double precision resolves to the stated tolerance
+        z1, z2 = z1 * (dx / 0.01) ** 2, z2 * (dx / 0.01) ** 2
+        ctx.label('sub-wavelength-sampling' if dx < 0.0005 * wvl else 'fine-sampling')
     f = U.relayout(U.field(case['seed'], shape, case['kind']).astype(complex), case.get('layout', 'C'))
     f_before = f.copy()
     # the scalar arguments may be Python floats, numpy scalars or 0-d arrays; the callee must not change the caller's objects
